@@ -57,7 +57,20 @@ pub enum Ins {
     },
     /// use a Scalar -> Scalar function as a value: `let v = sum(map(f, [a, b]))`
     MapFn { f: u16, seed: u32 },
+    /// a derived unit that is exactly a product of base units (`unit xprod_3 = m * s`): the
+    /// simplifier may name results after it from then on
+    ProductUnit { which: u8 },
+    /// an expression statement whose unit is such a product
+    /// (`early` is unused, kept so that saved replay files keep loading)
+    ProductExpr {
+        which: u8,
+        seed: u32,
+        #[serde(default)]
+        early: bool,
+    },
 }
+
+const PRODUCTS: &[(&str, &str, &str)] = &[("m * s", "m", "s"), ("kg * m", "kg", "m"), ("s * A", "s", "A"), ("m / K", "m", "1/K")];
 
 pub fn ins_strategy() -> impl Strategy<Value = Ins> {
     prop_oneof![
@@ -74,6 +87,8 @@ pub fn ins_strategy() -> impl Strategy<Value = Ins> {
         3 => (0u8..5, any::<u32>()).prop_map(|(ty, seed)| Ins::Print { ty, seed }),
         3 => (any::<bool>(), 0u8..6).prop_map(|(underscore, kind)| Ins::Ans { underscore, kind }),
         1 => (any::<u16>(), any::<u32>()).prop_map(|(f, seed)| Ins::MapFn { f, seed }),
+        1 => (0u8..4).prop_map(|which| Ins::ProductUnit { which }),
+        2 => (0u8..4, any::<u32>()).prop_map(|(which, seed)| Ins::ProductExpr { which, seed, early: false }),
     ]
 }
 
@@ -97,6 +112,11 @@ pub struct Env {
     /// a function that had been used as a value was redefined later: the recorded
     /// late-binding finding (function values are looked up by name) can show
     pub fn_value_redefined: bool,
+    /// product units defined so far (index into PRODUCTS)
+    pub product_units: Vec<u8>,
+    pub product_exprs: Vec<u8>,
+    /// a product expression was shown before a unit of that product existed
+    pub early_product: bool,
 }
 
 impl Env {
@@ -382,6 +402,29 @@ pub fn render_ins(ins: &Ins, env: &mut Env) -> String {
             env.ans = None;
             format!("let {name} = sum(map({fname}, [{a}, {b}]))")
         }
+        Ins::ProductUnit { which } => {
+            let (def, _, _) = PRODUCTS[*which as usize % PRODUCTS.len()];
+            let name = env.fresh("xprod");
+            env.others.push(name.clone());
+            env.ans = None;
+            let w = *which % PRODUCTS.len() as u8;
+            if env.product_exprs.contains(&w) && !env.product_units.contains(&w) {
+                // a value of this product was shown before a unit for it existed: if both are
+                // in one input, the later `unit` statement changes how the earlier value is
+                // displayed (recorded C07 finding)
+                env.early_product = true;
+            }
+            env.product_units.push(w);
+            format!("unit {name} = {def}")
+        }
+        Ins::ProductExpr { which, seed, .. } => {
+            let (_, a, b) = PRODUCTS[*which as usize % PRODUCTS.len()];
+            let mut r = Rng(*seed as u64);
+            env.ans = None;
+            let (x, y) = (1 + r.below(9), 2 + r.below(5));
+            env.product_exprs.push(*which % PRODUCTS.len() as u8);
+            format!("({x} {a}) * ({y} {b})")
+        }
         Ins::Ans { underscore, kind } => {
             if let Some(ty) = env.ans {
                 let a = if *underscore { "_" } else { "ans" };
@@ -409,7 +452,7 @@ pub fn render_ins(ins: &Ins, env: &mut Env) -> String {
                     }
                     _ => {
                         env.ans = None;
-                        format!("\"{{{a}}} / {{unit_of({a})}}\"")
+                        format!("\"{{{a}}} / {{{a} * 2}}\"")
                     }
                 }
             } else {
@@ -429,6 +472,24 @@ pub fn render_ins(ins: &Ins, env: &mut Env) -> String {
     stmt
 }
 
+/// Three inputs that probe whether `ans` survives a failing input: an expression that sets
+/// `ans`, an expression that is to be placed in front of the failing statement (it would
+/// change `ans` if the failing input were not rolled back), and a use of `ans` afterwards.
+pub fn ans_probe(env: &mut Env, which: u8) -> (String, String, String) {
+    let (a, b) = (2 + which % 5, 3 + which % 4);
+    let before = format!("{a} km / {b} m");
+    let inside = format!("{b} m * {a} cm / (1 mm)");
+    // (the caller adds `name: Scalar` to env.vars once the third input has been emitted)
+    let name = env.fresh("v");
+    env.ans = None;
+    let after = match which % 3 {
+        0 => format!("let {name} = ans"),
+        1 => format!("let {name} = value_of(_) + 1"),
+        _ => format!("let {name} = ans * 2"),
+    };
+    (before, inside, after)
+}
+
 /// Failing statements, one per failure kind.
 #[derive(Clone, Copy, Debug, PartialEq, Eq, Serialize, Deserialize)]
 pub enum Fail {
@@ -445,6 +506,8 @@ pub enum Fail {
     UserError,
     RuntimeInFunction,
     AssertEq,
+    /// a run-time failure in an input that defines nothing (expression statements only)
+    ExprRuntime(u8),
 }
 
 pub fn fail_strategy() -> impl Strategy<Value = Fail> {
@@ -462,6 +525,8 @@ pub fn fail_strategy() -> impl Strategy<Value = Fail> {
         Just(Fail::UserError),
         Just(Fail::RuntimeInFunction),
         Just(Fail::AssertEq),
+        (0u8..3).prop_map(Fail::ExprRuntime),
+        (0u8..3).prop_map(Fail::ExprRuntime),
     ]
 }
 
@@ -487,5 +552,6 @@ pub fn render_fail(f: Fail, env: &mut Env) -> (String, &'static str) {
             (format!("fn {name}(x: Scalar) -> Scalar = 1 / x\nlet zz_bad = {name}(0)"), "runtime")
         }
         Fail::AssertEq => ("assert_eq(1 m, 2 m)".into(), "runtime"),
+        Fail::ExprRuntime(k) => (["2 * (1 / 0)", "error(\"boom\")", "4 km / (2 m - 200 cm) * 0 + 1 / 0"][k as usize % 3].to_string(), "runtime"),
     }
 }
